@@ -482,8 +482,33 @@ let make_m1 (params : string list) : machine =
             let is_h = (List.hd toks = "hbound") in
             if t = "w" || List.exists (fun (w, _) -> int_of_z w = int_of_string (String.sub t 1 (String.length t - 1))) !st.forest
             then (if is_h then "hb(ok)" else "ct(ok)") else "err"
-        | [ "expimp"; v; _; _ ] ->
-            if List.exists (fun (w, _) -> int_of_z w = int_of_string v) !st.forest then "ei(ok)" else "err"
+        | [ "expimp"; v; codec; _ ] ->
+            (* the node store the importer writes: the tree the proved importer model builds from
+               the export stream (ExportImport.imp_run / cimp_run: keys with the nonces it assigns),
+               laid out by Store.expected_store, as a digest of the audit rendering *)
+            (match List.find_opt (fun (w, _) -> int_of_z w = int_of_string v) !st.forest with
+             | None -> "err"
+             | Some (_, t) ->
+                 let stream = export t in
+                 let imported =
+                   (if codec = "compress" then
+                      (match compress0 stream with
+                       | IOk cs -> cimp_run_sha (z_of_string v) (List.map (fun x -> Some x) cs)
+                       | IErr -> IErr | IPanic -> IPanic)
+                    else imp_run_sha (z_of_string v) (List.map (fun x -> Some x) stream)) in
+                 (match imported with
+                  | IOk t' ->
+                      (* Store.expected_store sorts by insertion (quadratic): for the few big trees the
+                         same entries (Store.tree_entries) are sorted here *)
+                      let big = (match t' with Some n -> int_of_z (size0 n) > 1500 | None -> false) in
+                      let store =
+                        (if not big then expected_store [ (z_of_string v, t') ]
+                         else List.sort_uniq (fun ((a, b), _) ((c, d), _) -> compare (int_of_z a, int_of_z b) (int_of_z c, int_of_z d))
+                                (tree_entries (z_of_string v, t'))) in
+                      let layout = show_store "an" store in
+                      "ei(ok;an=" ^ Digest.to_hex (Digest.string layout) ^ ")"
+                  | IErr -> "ei(model:import-error)"
+                  | IPanic -> "ei(model:import-panic)"))
         | [ "changes"; a; b ] -> expected_changes !st (int_of_string a) (int_of_string b)
         | [ "replaycs" ] | [ "replaycs"; _ ] -> "ok"
         | [ "savecs"; pairs ] ->
@@ -687,7 +712,7 @@ let make_m1 (params : string list) : machine =
         prev := !st;
         let r = step1 toks in
         (* out-of-contract operations raise above; a failed model step changes nothing below *)
-        fmirror toks;
+        if Sys.getenv_opt "VERIF_NOFMIRROR" = None then fmirror toks;
         r);
     classify = (fun toks model impl ->
         match toks with
